@@ -513,6 +513,92 @@ def _quotient_power(ctx, model, dm):
                    "more raises 'unrecognized function'")
 
 
+def _judge_product_rule(fn, class_node):
+    """-> witnesses.  self.rec(child_i) is the symbol d_i (or 0), rec_undiff the
+    symbol f_i; flattened_sum / flattened_product add and multiply; the result
+    must be sum_i d_i * prod_{j != i} f_j as a polynomial identity (factors are
+    taken to commute here; their order is the structural rule's clause)"""
+    import itertools
+    from ..absint import Interp, Opaque, Poly, Raised
+    wit = []
+    helpers = {st.name: st for st in class_node.body
+               if isinstance(st, ast.FunctionDef) and st.name.startswith("_")
+               and not st.name.startswith("__")}
+    for n in range(0, 5):
+        for zeros in itertools.product((False, True), repeat=n):
+            kids = [("child", i) for i in range(n)]
+
+            class Mp:
+                pass
+            mp = Mp()
+
+            def rec(ch, *a, **k):
+                return 0 if zeros[ch[1]] else Poly.sym(f"d{ch[1]}")
+
+            def undiff(ch, *a, **k):
+                return Poly.sym(f"f{ch[1]}")
+
+            def psum(it_, n_, a, k):
+                tot = Poly()
+                for x in a[0]:
+                    tot = tot + Poly.lift(x)
+                return tot
+
+            def pprod(it_, n_, a, k):
+                tot = Poly.const(1)
+                for x in a[0]:
+                    tot = tot * Poly.lift(x)
+                return tot
+
+            def attrs(it, node, base, attr):
+                if base is mp:
+                    if attr == "rec":
+                        return rec
+                    if attr == "rec_undiff":
+                        return undiff
+                    if attr in helpers:
+                        return lambda *a, **k: it.call_function(
+                            helpers[attr], [mp] + list(a),
+                            {"__kwargs__": dict(k)})
+                    raise AnalysisError(f"mapper attribute {attr}")
+                if base == "NODE" and attr == "children":
+                    return tuple(kids)
+                return Opaque(ast.unparse(node))
+
+            def is_zero(it_, n_, a, k):
+                v = a[0]
+                return (not v.t) if isinstance(v, Poly) else v == 0
+            it = Interp(calls={
+                "pymbolic.flattened_sum": psum, "flattened_sum": psum,
+                "pymbolic.flattened_product": pprod, "flattened_product": pprod,
+                "primitives.flattened_sum": psum,
+                "primitives.flattened_product": pprod,
+                "primitives.is_zero": is_zero, "is_zero": is_zero,
+                "pymbolic.primitives.is_zero": is_zero},
+                attrs=attrs, decide=lambda it_, n_, v: True, max_steps=50000)
+            want = Poly()
+            for i in range(n):
+                if zeros[i]:
+                    continue
+                t = Poly.sym(f"d{i}")
+                for j in range(n):
+                    if j != i:
+                        t = t * Poly.sym(f"f{j}")
+                want = want + t
+            try:
+                got = it.call_function(fn, [mp, "NODE"], {})
+            except Raised as r:
+                wit.append(f"{n} factors, zero derivatives at "
+                           f"{[i for i in range(n) if zeros[i]]}: raises at line "
+                           f"{r.node.lineno}")
+                continue
+            if not isinstance(got, (Poly, int)) or Poly.lift(got) != want:
+                wit.append(f"{n} factors, zero derivatives at "
+                           f"{[i for i in range(n) if zeros[i]]}: {got!r} "
+                           f"instead of {want!r}")
+    return wit
+
+
 def _conj(v, pol):
     if not isinstance(v, tuple):
         return
@@ -572,7 +658,19 @@ def _linear_rules(ctx, model, dm):
         ok = (undiff_over(before, ("const", 0), I)
               and undiff_over(after, ("binop", "Add", I, ("const", 1)), None)
               and mid == ("lit", "list", (("rec", ("elem", CH), True, ()),)))
-    ctx.ob("E/map_product", ok, where(mem),
+    if not ok:
+        # the judge: the handler interpreted on products of 0..4 factors with
+        # symbolic factors f_i and derivatives d_i (each d_i generic or zero)
+        wit = _judge_product_rule(mem.node, mem.owner.node)
+        if not wit:
+            ok = True
+        else:
+            ctx.ob("E/map_product", False, where(mem),
+                   "DifferentiationMapper.map_product is not the product rule: "
+                   + "; ".join(wit[:2]))
+            ok = None
+    if ok is not None:
+      ctx.ob("E/map_product", ok, where(mem),
            "(prod f_i)' = sum_i f_0..f_{i-1} * f_i' * f_{i+1}.. (order kept)"
            if ok else
            "DifferentiationMapper.map_product is not the product rule: for each "
